@@ -18,6 +18,7 @@ import (
 	"github.com/lianxiangcloud/linkchain/libs/ser"
 	"github.com/lianxiangcloud/linkchain/types"
 
+	"lvharness/appsim"
 	"lvharness/hx"
 )
 
@@ -35,11 +36,19 @@ func (P) Rule() string {
 
 var once sync.Once
 
+// the application stack (appsim) registers the UTXO types itself, once; both setups must not register twice
+func setupApp() { setup() }
+
 func setup() {
 	once.Do(func() {
 		log.Root().SetHandler(log.DiscardHandler())
 		types.GetLogger().SetHandler(log.DiscardHandler())
-		types.RegisterUTXOTxData()
+		// appsim's one-time initialisation registers the UTXO types with libs/ser (a second registration would panic)
+		if s, err := appsim.NewStack(appsim.Opts{}); err == nil {
+			s.Close()
+		} else {
+			types.RegisterUTXOTxData()
+		}
 	})
 }
 
@@ -293,6 +302,8 @@ type exec struct {
 	chain int64
 	keys  []common.Address
 	slots map[int]*slot
+	mst   *mstState
+	own   *ownState
 }
 
 func (P) NewExec() hx.Executor { setup(); return &exec{chain: 29153, slots: map[int]*slot{}} }
@@ -358,6 +369,21 @@ func hex32(n *big.Int) string { return fmt.Sprintf("%064x", n) }
 
 func (e *exec) Exec(op string) string {
 	toks := hx.Tokens(op)
+	if strings.HasPrefix(toks[0], "m.") {
+		if e.mst == nil {
+			e.mst = newMst()
+		}
+		return e.mst.exec(toks)
+	}
+	if toks[0] == "u.ring" {
+		return ringOp(toks)
+	}
+	if strings.HasPrefix(toks[0], "u.") {
+		if e.own == nil {
+			e.own = newOwn()
+		}
+		return e.own.exec(toks)
+	}
 	switch toks[0] {
 	case "case":
 		e.chain = 29153
@@ -367,6 +393,8 @@ func (e *exec) Exec(op string) string {
 		types.SignParam = big.NewInt(e.chain)
 		types.GlobalSTDSigner = types.MakeSTDSigner(nil)
 		e.keys, e.slots = nil, map[int]*slot{}
+		e.mst = newMst()
+		e.own = newOwn()
 		return "ok"
 	case "keys":
 		a, _ := hx.Arg(toks, "addrs")
@@ -407,9 +435,44 @@ func (e *exec) Exec(op string) string {
 	case "vinfo":
 		vs, _ := hx.Arg(toks, "v")
 		v, _ := new(big.Int).SetString(vs, 10)
+		if vs == "nil" {
+			v = nil
+		}
 		tx := &types.UTXOTransaction{}
 		tx.Sigs.V = v
 		return fmt.Sprintf("protected=%v param=%s", tx.Sigs.Protected(), tx.Sigs.SignParam().String())
+	case "cutapi":
+		// types.SignContractUpgradeTx per key (global signer), then types.UpgradeContractTx
+		i, _ := intArg(toks, "slot")
+		ps, _ := hx.Arg(toks, "privs")
+		s := &slot{kind: "cut", fields: fieldArgs(toks)}
+		delete(e.slots, i)
+		mi := s.mainInfo()
+		var sd [][]byte
+		for _, ph := range hx.SplitComma(ps) {
+			prv, err := crypto.ToECDSA(hx.UnHex(ph))
+			if err != nil {
+				return "bad-op"
+			}
+			b, err := types.SignContractUpgradeTx(prv, &mi)
+			if err != nil {
+				return "sign-error"
+			}
+			sd = append(sd, b)
+		}
+		if _, err := types.SignContractUpgradeTx(nil, &mi); err == nil {
+			return "nil-key-accepted"
+		}
+		tx := types.UpgradeContractTx(&mi, sd)
+		if tx == nil || types.UpgradeContractTx(nil, sd) != nil {
+			return "bad"
+		}
+		for _, g := range tx.Signatures {
+			s.sigs = append(s.sigs, sigv{g.V, g.R, g.S})
+		}
+		s.obj = tx
+		e.slots[i] = s
+		return fmt.Sprintf("ok sigs=%s", sigsToken(s.sigs))
 	case "mk":
 		i, _ := intArg(toks, "slot")
 		k, _ := hx.Arg(toks, "kind")
@@ -551,6 +614,12 @@ func (e *exec) Exec(op string) string {
 			return "bad-op"
 		}
 		sp, _ := hx.Arg(toks, "signers")
+		if sp == "nil" {
+			if tx.VerifySign(nil) == nil {
+				return "ok"
+			}
+			return "fail"
+		}
 		mn, _ := intArg(toks, "min")
 		info := &types.SignersInfo{MinSignerPower: int32(mn)}
 		for _, p := range hx.SplitComma(sp) {
@@ -566,6 +635,13 @@ func (e *exec) Exec(op string) string {
 			return "ok"
 		}
 		return "fail"
+	case "cutfrom":
+		tx, ok := s.obj.(*types.ContractUpgradeTx)
+		if !ok {
+			return "bad-op"
+		}
+		from, err := tx.From()
+		return fmt.Sprintf("from=%s err=%v to=%s nonce=%d type=%s", hx.Hex(from[:]), err != nil, hx.Hex(tx.To()[:]), tx.Nonce(), tx.TypeName())
 	case "hash":
 		return "h=" + hx.Hex(s.obj.(types.Tx).Hash().Bytes())
 	case "sighash":
@@ -626,6 +702,7 @@ type mslot struct {
 	kind   string
 	fields map[string]string
 	sigs   []string
+	last   string // the last clean answer of Senders() on exactly this content
 	warm   bool // a sender cache of this object may have been filled
 	dirty  bool // an in-place write or an API re-sign happened on this object after its cache was filled
 }
@@ -676,6 +753,7 @@ func (P) Monitor(c *hx.CaseRun) []hx.Failure {
 	}
 	chain := "29153"
 	slots := map[int]*mslot{}
+	var keyAddrs []string
 	var seen []obs
 	type hobs struct {
 		content string
@@ -763,16 +841,35 @@ func (P) Monitor(c *hx.CaseRun) []hx.Failure {
 		}
 		seen = append(seen, o)
 	}
+	om := &ownMon{dests: map[int][]destTok{}, images: map[string]string{}}
+	mm := &mstMon{contents: map[int]string{}, txs: map[int]*mstTx{}, hashes: map[string]string{}}
 	for i, op := range c.Ops {
 		if i >= len(c.Impl) {
 			break
 		}
 		ans := c.Impl[i]
 		toks := hx.Tokens(op)
+		if strings.HasPrefix(toks[0], "m.") {
+			mm.step(i, toks, ans, fail)
+			continue
+		}
+		if strings.HasPrefix(toks[0], "u.") {
+			om.step(i, toks, ans, fail)
+			continue
+		}
 		switch toks[0] {
 		case "case":
 			if v, ok := hx.Arg(toks, "chain"); ok {
 				chain = v
+			}
+		case "keys":
+			a, _ := hx.Arg(toks, "addrs")
+			keyAddrs = hx.SplitComma(a)
+		case "cutapi":
+			si, _ := intArg(toks, "slot")
+			delete(slots, si)
+			if strings.HasPrefix(ans, "ok sigs=") {
+				slots[si] = &mslot{kind: "cut", fields: fieldArgs(toks), sigs: hx.SplitComma(strings.TrimPrefix(ans, "ok sigs="))}
 			}
 		case "vrs":
 			v, _ := intArg(toks, "v")
@@ -804,6 +901,7 @@ func (P) Monitor(c *hx.CaseRun) []hx.Failure {
 				delete(slots, si)
 				continue
 			}
+			m.last = ""
 			for f, v := range fieldArgs(toks) {
 				if _, has := m.fields[f]; has {
 					m.fields[f] = v
@@ -830,6 +928,7 @@ func (P) Monitor(c *hx.CaseRun) []hx.Failure {
 			s, _ := hx.Arg(at, "s")
 			g := sigv{new(big.Int), new(big.Int).SetBytes(hx.UnHex(r)), new(big.Int).SetBytes(hx.UnHex(s))}
 			g.v.SetString(v, 10)
+			m.last = ""
 			if m.kind == "cut" {
 				m.sigs = append(m.sigs, g.String())
 				m.dirty, m.warm = false, false // Sign builds fresh signature objects
@@ -855,6 +954,9 @@ func (P) Monitor(c *hx.CaseRun) []hx.Failure {
 				for k, a := range hx.SplitComma(ans) {
 					observe(i, m, k, "eip:"+chain, a)
 				}
+				if strings.HasPrefix(ans, "key=") && !m.dirty {
+					m.last = ans
+				}
 			}
 			if m := slots[si]; m != nil {
 				m.warm = true
@@ -863,6 +965,38 @@ func (P) Monitor(c *hx.CaseRun) []hx.Failure {
 			si, _ := intArg(toks, "slot")
 			if m := slots[si]; m != nil {
 				m.warm = true
+				sp, _ := hx.Arg(toks, "signers")
+				if ans == "ok" && (sp == "nil" || sp == "-" || sp == "") {
+					fail("cut_sender_authorised", "cut-accepted-without-signers", fmt.Sprintf("op %d", i))
+				}
+				if ans == "ok" && m.last != "" && !m.dirty && sp != "nil" {
+					// accepted: the charged sender (FromAddr) must be among the recovered signers, and the distinct recovered
+					// signers must hold at least the minimum power (ground truth: the implementation's own Senders() answer)
+					distinct := map[string]bool{}
+					for _, k := range hx.SplitComma(m.last) {
+						distinct[strings.TrimPrefix(k, "key=")] = true
+					}
+					mn, _ := intArg(toks, "min")
+					power, fromOK := 0, false
+					for k := range distinct {
+						ki, _ := strconv.Atoi(k)
+						if ki < len(keyAddrs) && m.fields["FromAddr"] == "a:"+keyAddrs[ki] {
+							fromOK = true
+						}
+					}
+					for _, p := range hx.SplitComma(sp) {
+						kv := strings.Split(p, ":")
+						w, _ := strconv.Atoi(kv[1])
+						if distinct[kv[0]] {
+							power += w
+						}
+					}
+					if !fromOK {
+						fail("cut_sender_authorised", "cut-sender-not-a-signer", fmt.Sprintf("op %d: VerifySign accepts although FromAddr %s did not sign (signers %s)", i, m.fields["FromAddr"], m.last))
+					} else if power < mn {
+						fail("cut_sender_authorised", "cut-accepted-below-min-power", fmt.Sprintf("op %d: distinct signers %s hold %d < %d", i, m.last, power, mn))
+					}
+				}
 			}
 		case "hash":
 			si, _ := intArg(toks, "slot")
@@ -1215,6 +1349,18 @@ func (P) Generate(g *hx.Gen) {
 		genGarbage(g)
 		mark = prune(g, mark)
 	}
+	nO := g.Pick(40, 1500)
+	for n := 0; n < nO; n++ {
+		genOwn(g)
+		mark = prune(g, mark)
+	}
+	genRing(g)
+	mark = prune(g, mark)
+	nM := g.Pick(250, 6000)
+	for n := 0; n < nM; n++ {
+		genMst(g)
+		mark = prune(g, mark)
+	}
 	prune(g, mark)
 }
 
@@ -1538,7 +1684,23 @@ func genCut(g *hx.Gen) {
 		}
 		return fmt.Sprintf("signers=%s min=%d", strings.Join(p, ","), 1+g.Rng.Intn(5))
 	}
-	ops = append(ops, "senders slot=0", "verifysign slot=0 "+signersInfo(), "hash slot=0")
+	ops = append(ops, "senders slot=0", "verifysign slot=0 "+signersInfo(), "hash slot=0", "cutfrom slot=0")
+	if g.Rng.Intn(3) == 0 {
+		ops = append(ops, "verifysign slot=0 signers=nil min=1", "verifysign slot=0 signers=- min=0")
+	}
+	if g.Rng.Intn(2) == 0 {
+		// the same through SignContractUpgradeTx / UpgradeContractTx
+		var privs []string
+		m := apiSig("cut", fields, nil, signer, perm[0], keys[perm[0]])
+		ops = append(ops, m.oracle)
+		for i := 0; i < nsig; i++ {
+			mi := apiSig("cut", fields, nil, signer, perm[i], keys[perm[i]])
+			ops = append(ops, mi.oracle)
+			privs = append(privs, hx.Hex(keys[perm[i]].priv))
+		}
+		ops = append(ops, fmt.Sprintf("cutapi slot=90 %s privs=%s", fieldToks("cut", fields), strings.Join(privs, ",")), "senders slot=90", "verifysign slot=90 "+signersInfo(), "hash slot=90")
+		g.Count("cut:SignContractUpgradeTx")
+	}
 	next := 1
 	for step := 0; step < 3+g.Rng.Intn(5); step++ {
 		switch g.Rng.Intn(6) {
@@ -1604,7 +1766,7 @@ func genGrid(g *hx.Gen) {
 	ops = []string{caseOp(29153, "grid")}
 	vs := []string{"0", "1", "26", "27", "28", "29", "34", "35", "36", "37", "58341", "58342", "58343", "255", "256", "-27", "-28", "-35", "-58341",
 		"18446744073709551615", "18446744073709551616", "18446744073709551651", "-18446744073709551616", "36893488147419103232", "-36893488147419103267"}
-	for _, v := range vs {
+	for _, v := range append(vs, "nil") {
 		ops = append(ops, "vinfo v="+v)
 	}
 	for n := 0; n < g.Pick(60, 2000); n++ {
